@@ -190,7 +190,7 @@ class Scheduler(object):
         out = []
         for t in self.threads:
             if t.state in (BLOCKED, TIMED):
-                out.append('%s blocked on %s' % (t.name, t.blocked_on))
+                out.append('%s blocked on %s' % (getattr(t, 'label', None) or t.name, t.blocked_on))
         return '; '.join(out)
 
 
@@ -536,7 +536,7 @@ class Thread(object):
             return
         except BaseException as e:
             self.exc = e
-            s.thread_exc.append((self.tid, self.name, repr(e), traceback.format_exc()))
+            s.thread_exc.append((self.tid, getattr(self, 'label', None) or self.name, repr(e), traceback.format_exc()))
         if s.aborting:
             return
         self.state = DONE
